@@ -1,6 +1,7 @@
 package main
 
 import (
+	"errors"
 	"bytes"
 	"encoding/json"
 	"os"
@@ -43,8 +44,8 @@ func guarded(kind, note string, f func() *h.Case) *h.Case {
 	select {
 	case c := <-ch:
 		return c
-	case <-time.After(20 * time.Second):
-		return &h.Case{Kind: kind, Impl: "HANG", Oracle: "entry point did not return within 20 s", NonTrivial: true, Note: note}
+	case <-time.After(60 * time.Second):
+		return &h.Case{Kind: kind, Impl: "HANG", Oracle: "entry point did not return within 60 s", NonTrivial: true, Note: note}
 	}
 }
 
@@ -128,6 +129,58 @@ func runC14(cx *ctx) {
 				return c
 			})
 		})
+	}
+	// 2b. a VALID armored file with exactly one armor-level defect (a byte outside the base64 alphabet, at every
+	// armor line in turn): the only thing wrong is the armor, so whatever age.Decrypt or the payload reader
+	// reports must carry *armor.Error — also when the defect is met while a recipient stanza is being parsed
+	for rep := 0; rep < cx.n(6, 40); rep++ {
+		rr := r.Fork()
+		var ps []*party
+		var recs []age.Recipient
+		for k := 1 + rr.Intn(3); k > 0; k-- {
+			p := mkParty(rr, rr.Intn(3))
+			ps, recs = append(ps, p), append(recs, p.rec)
+		}
+		pt := rr.Bytes(rr.Intn(150))
+		text, err, _ := realEncryptFile(rr.Bytes(16+64*len(ps)+64), recs, [][]byte{pt}, true)
+		if err != nil {
+			panic(err)
+		}
+		lines := bytes.Split(bytes.TrimRight(text, "\n"), []byte("\n"))
+		for li := 1; li < len(lines)-1; li++ {
+			li := li
+			rb := rr.Fork()
+			cx.ru.Do(func() *h.Case {
+				bad := h.Pick(rb, []byte{'*', 0, '-', ' ', 0x80, '\t', '_'})
+				ls := make([][]byte, len(lines))
+				for i := range lines {
+					ls[i] = append([]byte(nil), lines[i]...)
+				}
+				col := rb.Intn(len(ls[li]))
+				ls[li][col] = bad
+				t := append(bytes.Join(ls, []byte("\n")), '\n')
+				note := fmt.Sprintf("recipients=%s: byte %#x at line %d column %d of %d body lines", labelsOf(ps), bad, li+1, col, len(lines)-2)
+				return guarded("armor-typed", note, func() *h.Case {
+					rd, err := age.Decrypt(armor.NewReader(bytes.NewReader(t)), ps[0].id)
+					if err == nil {
+						_, err = io.Copy(io.Discard, rd)
+					}
+					c := &h.Case{Kind: "armor-typed", NonTrivial: true, Note: note}
+					var ae *armor.Error
+					switch {
+					case err == nil:
+						c.Impl = "ok"
+						c.Oracle = "an armored file with a byte outside the base64 alphabet decrypted cleanly"
+					case errors.As(err, &ae):
+						c.Impl = "armor-error"
+					default:
+						c.Impl = "other-error"
+						c.Oracle = fmt.Sprintf("the only defect of the file is in its armor, but the error does not carry *armor.Error: %T %v", err, err)
+					}
+					return c
+				})
+			})
+		}
 	}
 	// 3. armor reader alone
 	for i := 0; i < cx.n(800, 20000); i++ {
